@@ -4,10 +4,10 @@ use std::borrow::Cow;
 
 use winnow::{
     ascii::{space0, space1},
-    combinator::{cond, cut_err, opt, preceded, repeat, terminated, trace},
+    combinator::{cond, cut_err, opt, peek, preceded, repeat, terminated, trace},
     error::StrContext,
     stream::{AsChar, Stream, StreamIsPartial},
-    token::{one_of, take_while},
+    token::{none_of, one_of, take_while},
     ModalResult, Parser,
 };
 
@@ -50,7 +50,8 @@ where
         let posts = repeat(
             0..,
             preceded(
-                take_while(1.., b" \t"),
+                // a line only with spaces isn't a posting, but a vertical space after the transaction.
+                (take_while(1.., b" \t"), peek(none_of(['\r', '\n']))),
                 cut_err(Deco::decorate_parser(posting::posting)),
             ),
         )
